@@ -72,7 +72,9 @@ def obligations(tier):
          ('[-0,1.50,1e2,12345678901234567890,"?"]', 0, 0, CINT | CFLT | PRES, 0),
          ('{"%E2%80?":"<?>"}', 0, 0, HTML | JS | PRES | UTF8, 0),
          ('[[?],{"?":{"?":[]}}]', 0, 0, MULTI | SPCOM, 1),
-         ('{"\\u00??":1,"?":2}', 0, 0, DUP | REORD, 0)]
+         ('{"\\u00??":1,"?":2}', 0, 0, DUP | REORD, 0),
+         ('{"\\u00??":1,"?":2}', 0, 0, DUP | PRES, 0),
+         ('{"a\\/?":1,"a/?":2}', 0, 0, DUP | PRES | REORD, 0)]
     if not q:
         T += [('{"?":?,"?":[?]}', 0, 0, DUP | REORD | UTF8 | PRES | MULTI, 0),
               ('{"?":1,"?":2,"?":3}', REORD, 0, DUP | UTF8 | PRES, 0),
